@@ -393,3 +393,29 @@ PROPS["C20"] = dict(
              "pairs-with-empty-object-side", "pairs-with-prefix-related-keys"],
     assumptions=["model merge written from the property statement and the documented update rule"],
 )
+
+# ------------------------------------------------------------------------------------------------ C16
+PROPS["C16"] = dict(
+    title="The pool allocator hands out aligned, disjoint, stable blocks",
+    rule=("histories of 50..500 (thorough 3000) operations {Malloc, Realloc (most recent block / any block / null / to zero), Clear, copy "
+          "construct/assign a handle, move a handle, destroy a handle, Size/Capacity} on MemoryPoolAllocator<recording base, "
+          "Simple|Adaptive policy> with chunk capacity 64/128/1024/65536, own buffer (explicit or default-constructed base allocator) "
+          "or user buffer (aligned / misaligned); sizes around 0, 7..9, chunk-8..chunk+8, multiples of the chunk, random. After every "
+          "operation: 8-byte alignment, block wholly inside exactly one recorded chunk past its header (or the user buffer), disjoint "
+          "from every block since the last Clear, Realloc keeps min(old,new) bytes and is in place exactly when the block is the most "
+          "recent one and room remains, zero sizes give null, Size()==bytes handed out, Capacity()==sum of recorded chunk capacities; "
+          "every live block carries a serial-derived pattern that is re-verified every 32 operations and at the end; all handles but "
+          "one destroyed then the pool used again; every chunk returned to the base allocator after the last handle; documents parsed "
+          "and grown on 64..1024-byte chunk pools read back correctly; adaptive policy with requests above 64 KiB; ASan on; "
+          "distinct = hash of the operation trace"),
+    runs=[
+        dict(name="asan-hsw", src="pool_harness.cpp", cfg="asan-hsw", env=ASAN_NOLEAK_ENV),
+        dict(name="prod-hsw", src="pool_harness.cpp", cfg="prod-hsw", env={}),
+    ],
+    require=["op:Malloc", "op:Realloc-in-place", "op:Realloc-moved", "op:Realloc-shrink-or-same", "op:Clear", "op:copy-handle", "op:move-handle",
+             "op:destroy-handle", "op:zero-size-request", "pool:user-buffer", "pool:user-buffer-misaligned", "pool:adaptive-policy",
+             "pool:simple-policy", "event:new-chunk", "content-reverifications", "op:request-larger-than-chunk",
+             "documents-parsed-on-small-chunk-pools", "pool:default-constructed-base-allocator"],
+    assumptions=["leak detection is off for this check: a user-buffer pool that overflows into a lazily created base allocator leaks that 1-byte object "
+                 "(RapidJSON heritage, outside the statement); chunk release is checked by the recording base allocator instead"],
+)
